@@ -29,9 +29,9 @@ class C20(Check):
                 "(AsyncioExecutor.__init__ never runs); gRPC transport and Quantum Engine server (model E3); "
                 "sampler/processor back ends of W1/W2 (fakes completed by the simulator)",
     }
-    tiers = {"quick": {"runs": 30000, "wall": 80}, "thorough": {"runs": 3000000, "wall": 1200}}
+    tiers = {"quick": {"runs": 60000, "wall": 85}, "thorough": {"runs": 3000000, "wall": 1200}}
     expected_probes = ["w1:out-of-order-completion", "w1:declined-with-work-left", "w1:budget-exhausted",
-                       "w1:error-with-jobs-in-flight",
+                       "w1:error-with-jobs-in-flight", "w1:pauli-sum-collector", "w1:pauli-out-of-order-completion",
                        "w3:JOB_ALREADY_EXISTS", "w3:PROGRAM_ALREADY_EXISTS", "w3:JOB_DOES_NOT_EXIST",
                        "w3:PROGRAM_DOES_NOT_EXIST", "w3:break-with-two-in-flight", "w3:T2-reader-death",
                        "w3:cancel-before-request-queued", "w3:cancel-with-request-out", "w3:cancel-rpc-sent",
@@ -55,7 +55,10 @@ class C20(Check):
     def run_one(self, tape, ctx: Ctx) -> None:
         w = tape.weighted([3, 6, 2, 3], "workload")
         if w == 0:
-            self._w1.run(tape, ctx)
+            if tape.chance(1, 5, "pauli-sum-collector?"):
+                self._w1.run_pauli(tape, ctx)
+            else:
+                self._w1.run(tape, ctx)
         elif w == 1:
             self._w3.run(tape, ctx)
         elif w == 2:
